@@ -7,13 +7,15 @@
 EXTENDS ArxmlObs, Json, IOUtils, SchemaData
 
 CONSTANTS NM
-VARIABLES l
+VARIABLES l,
+          dead   \* TRUE after the first failing step of a history: the rest of it is not judged (attribution rule)
 
 \* (a constant overridden in the cfg by a definition of an EXTENDed module is re-evaluated at every use by TLC;
 \*  one level of indirection in this module makes it a precomputed constant)
 SchemaDef == SchemaDataDef
 
 P == INSTANCE ArxmlProps
+K == INSTANCE ArxmlKF
 
 ASSUME TLCSet(7, ndJsonDeserialize(IOEnv.TRACE))
 Log == TLCGet(7)
@@ -37,38 +39,55 @@ Conforms(pre, ev, res, post) ==
   IF ev.op \notin ModelledOps \/ ~AllKnown(pre) \/ ~AllKnown(post) THEN "unmodelled"
   ELSE IF \E out \in Do(Abs(pre), ev) : SameRes(out.res, res) /\ out.st = Abs(post) THEN "yes" ELSE "no"
 
-Report(j, kind, name) == PrintT(<<"V", ToJson([step |-> j, kind |-> kind, pred |-> name, prop |-> P!PropertyOf(name),
-                                                op |-> Log[j].ev.op, res |-> Log[j].res])>>)
+Report(j, kind, name, kf) == PrintT(<<"V", ToJson([step |-> j, kind |-> kind, pred |-> name, prop |-> P!PropertyOf(name),
+                                                    op |-> Log[j].ev.op, res |-> Log[j].res, kf |-> kf])>>)
 
-CheckReset(j) ==
-  LET r == P!StateProps(Log[j].obs) IN
-  \A k \in DOMAIN r : r[k] \/ Report(j, "state-at-reset", k)
+ResetFails(j) == LET r == P!StateProps(Log[j].obs) IN {k \in DOMAIN r : ~r[k]}
+CheckReset(j) == \A k \in ResetFails(j) : Report(j, "state-at-reset", k, {})
 
-CheckStep(j) ==
+\* the set of property predicates failing at step j (state predicates: those that turn from true to false)
+StepFails(j) ==
   LET pre == Log[j - 1].obs
       post == Log[j].obs
-      ev == Log[j].ev
-      res == Log[j].res
       cx1 == P!Ctx(pre)
       cx2 == P!Ctx(post)
       s1 == P!StatePropsCx(pre, cx1)
       s2 == P!StatePropsCx(post, cx2)
-      a == P!ActionPropsCx(pre, cx1, ev, res, post, cx2)
+      a == P!ActionPropsCx(pre, cx1, Log[j].ev, Log[j].res, post, cx2)
+  IN [st |-> {k \in DOMAIN s2 : s1[k] /\ ~s2[k]}, ac |-> {k \in DOMAIN a : ~a[k]}, cx1 |-> cx1, cx2 |-> cx2]
+
+CheckStep(j, sf) ==
+  LET pre == Log[j - 1].obs
+      post == Log[j].obs
+      ev == Log[j].ev
+      res == Log[j].res
       cf == Conforms(pre, ev, res, post)
-  IN /\ \A k \in DOMAIN s2 : (s2[k] \/ ~s1[k]) \/ Report(j, "state", k)
-     /\ \A k \in DOMAIN a : a[k] \/ Report(j, "action", k)
-     /\ (cf # "no") \/ Report(j, "drift", "ConformsToNext")
-     /\ (cf # "unmodelled") \/ Report(j, "unmodelled", "ConformsToNext")
+      \* a known-finding signature covers every predicate that flips at the step it describes
+      kfs == UNION {K!KFMatch(pre, sf.cx1, ev, res, post, sf.cx2, k) : k \in sf.st \cup sf.ac}
+  IN /\ \A k \in sf.st : Report(j, "state", k, kfs)
+     /\ \A k \in sf.ac : Report(j, "action", k, kfs)
+     /\ IF cf = "no" THEN Report(j, "drift", "ConformsToNext", {}) ELSE TRUE
+     /\ IF cf = "unmodelled" THEN Report(j, "unmodelled", "ConformsToNext", {}) ELSE TRUE
 
 Poisoned(j) == "poisoned" \in DOMAIN Log[j].obs
 
-Init == l = 1 /\ (Poisoned(1) \/ CheckReset(1))
+Init == /\ l = 1
+        /\ (IF Poisoned(1) THEN TRUE ELSE CheckReset(1))
+        /\ dead = (~Poisoned(1) /\ ResetFails(1) # {})
 Next == /\ l < Len(Log)
         /\ l' = l + 1
-        /\ IF Poisoned(l + 1) \/ Poisoned(l) THEN
-              \* the call never returned: the only thing to evaluate is the result class
-              (Log[l + 1].ev.op = "reset" \/ Log[l + 1].res.t \notin {"panic", "hang"} \/ Report(l + 1, "action", "NoPanicNoHangNoSpuriousLock"))
-           ELSE IF Log[l + 1].ev.op = "reset" THEN CheckReset(l + 1) ELSE CheckStep(l + 1)
-Spec == Init /\ [][Next]_l
-Consumed == TLCGet("stats").diameter = Len(Log) \/ PrintT(<<"NOTCONSUMED", TLCGet("stats").diameter, Len(Log)>>)
+        /\ LET j == l + 1 IN
+           IF Log[j].ev.op = "reset" THEN
+                /\ (IF Poisoned(j) THEN TRUE ELSE CheckReset(j))
+                /\ dead' = (~Poisoned(j) /\ ResetFails(j) # {})
+           ELSE IF dead THEN dead' = TRUE
+           ELSE IF Poisoned(j) \/ Poisoned(l) THEN
+                \* the call never returned: the only thing to judge is the result class
+                /\ (IF Log[j].res.t \in {"panic", "hang"} THEN Report(j, "action", "NoPanicNoHangNoSpuriousLock", {}) ELSE TRUE)
+                /\ dead' = TRUE
+           ELSE LET sf == StepFails(j) IN
+                /\ CheckStep(j, sf)
+                /\ dead' = (sf.st \cup sf.ac # {})
+Spec == Init /\ [][Next]_<<l, dead>>
+Consumed == IF TLCGet("stats").diameter = Len(Log) THEN TRUE ELSE PrintT(<<"NOTCONSUMED", TLCGet("stats").diameter, Len(Log)>>)
 =============================================================================
